@@ -280,10 +280,10 @@ def run_real(case, m):
         except Exception as e:  # noqa: BLE001
             r = "error " + type(e).__name__
         if x.tobytes() != snap:
-            problems.append(f"{name} modified the dataset passed in")
+            problems.append(("dataset_unchanged", f"{name} modified the dataset passed in"))
             x[...] = np.frombuffer(snap, dtype=x.dtype).reshape(x.shape)
         if isinstance(r, np.ndarray) and np.shares_memory(r, x):
-            problems.append(f"{name} returned an array that shares memory with the dataset passed in")
+            problems.append(("dataset_unchanged", f"{name} returned an array that shares memory with the dataset passed in"))
         out[name] = r
         return r
 
@@ -320,54 +320,54 @@ def oracle(case, out):
     inst = out["inst"]
     for name in ["inst", "filt", "prob", "annual", "spells", "spells0", "extent", "clusters", "pct", "annualv", "intensity"]:
         if isinstance(out[name], str):
-            bad.append(f"{name}: unexpected {out[name]} on a well-formed request")
+            bad.append((f"{name}-raises", f"{name}: unexpected {out[name]} on a well-formed request"))
     if bad:
         return bad
     ref = ref_instances(case)
     if inst.shape != x.shape or not np.array_equal(inst, ref):
         k = np.argwhere(inst != ref)
-        bad.append(f"instances differ from the defining comparison at {k[:3].tolist()} ({k.shape[0]} entries)")
+        bad.append(("instances_def", f"instances differ from the defining comparison at {k[:3].tolist()} ({k.shape[0]} entries)"))
         return bad
     n = int(ref.sum())
     if not np.array_equal(out["filt"], np.where(ref == 1, x, 0.0)):
-        bad.append("filter_threshold_exceedances is not (value where the condition is met, 0 elsewhere)")
+        bad.append(("accumulative_filter", "filter_threshold_exceedances is not (value where the condition is met, 0 elsewhere)"))
     if not np.allclose(out["prob"], ref.mean(axis=0), rtol=0, atol=1e-12):
-        bad.append("exceedance probability is not the per-location mean of the instances")
+        bad.append(("probability_mean", "exceedance probability is not the per-location mean of the instances"))
     yrs = sorted(set(years_of(case["time"])))
     if out["annual"].shape != (len(yrs), I, J) or not np.array_equal(out["annual"].sum(axis=0), ref.sum(axis=0)):
-        bad.append(f"annual counts do not sum to the number of instances ({out['annual'].sum()} vs {n}, {len(yrs)} years)")
+        bad.append(("annual_counts_conserve", f"annual counts do not sum to the number of instances ({out['annual'].sum()} vs {n}, {len(yrs)} years)"))
     s0 = out["spells0"]
     if int(s0.sum()) != n or (s0 <= 0).any():
-        bad.append(f"spell lengths (minimum length 0) sum to {int(s0.sum())}, instances {n}; min {s0.min() if s0.size else None}")
+        bad.append(("spell_lengths_conserve", f"spell lengths (minimum length 0) sum to {int(s0.sum())}, instances {n}; min {s0.min() if s0.size else None}"))
     if sorted(out["spells"].tolist()) != sorted(s0[s0 > case["minlen"]].tolist()):
-        bad.append(f"spell lengths with minimum_length={case['minlen']} are not the spells longer than it")
+        bad.append(("spell_minimum_length", f"spell lengths with minimum_length={case['minlen']} are not the spells longer than it"))
     e = out["extent"]
     if not close(float(e.sum()) * I * J, n, n) or (e <= 0).any() or (e > 1 + 1e-12).any():
-        bad.append(f"spatial extents x cells sum to {float(e.sum()) * I * J}, instances {n}")
+        bad.append(("spatial_extent_conserve", f"spatial extents x cells sum to {float(e.sum()) * I * J}, instances {n}"))
     c = out["clusters"]
     if (c <= 0).any() or int(c.sum()) != n:
-        bad.append(f"cluster sizes {c[:6].tolist()} (sum {c.sum()}) vs instances {n}: not positive / not conserving")
+        bad.append(("clusters_conserve", f"cluster sizes {c[:6].tolist()} (sum {c.sum()}) vs instances {n}: not positive / not conserving"))
     lab, k = out["labels"], out["nlabels"]
     if not (np.array_equal(lab > 0, ref == 1) and (lab.max() if lab.size else 0) == k and all((lab == l).any() for l in range(1, k + 1))):
-        bad.append("scipy.ndimage.label does not satisfy the labelling law assumed by clusters_conserve")
+        bad.append(("label_law", "scipy.ndimage.label does not satisfy the labelling law assumed by clusters_conserve"))
     if c.size != k:
-        bad.append(f"cluster table has {c.size} rows, labelling has {k} clusters")
+        bad.append(("clusters_rows", f"cluster table has {c.size} rows, labelling has {k} clusters"))
     tot = x.sum(axis=0)
     amount = np.where(ref == 1, x, 0.0).sum(axis=0)
     pct = out["pct"]
     if (x >= 0).all():
         ok = tot > 0
         if (pct[ok] < -1e-9).any() or (pct[ok] > 100 + 1e-9).any():
-            bad.append(f"percent of total amount outside [0,100]: {pct[ok].tolist()[:4]}")
+            bad.append(("accumulative_percent_range", f"percent of total amount outside [0,100]: {pct[ok].tolist()[:4]}"))
     okp = tot != 0
     if not np.allclose(pct[okp], 100 * amount[okp] / tot[okp], rtol=1e-12, atol=1e-9):
-        bad.append("percent of total amount is not 100 * amount over the exceeding steps / total")
+        bad.append(("accumulative_percent", "percent of total amount is not 100 * amount over the exceeding steps / total"))
     if not np.allclose(out["annualv"].sum(axis=0), amount, rtol=1e-12, atol=1e-9):
-        bad.append("annual values do not sum to the amount over the exceeding steps")
+        bad.append(("accumulative_annual", "annual values do not sum to the amount over the exceeding steps"))
     cnt = ref.sum(axis=0)
     ii = out["intensity"]
     if not np.allclose(ii[cnt > 0], amount[cnt > 0] / cnt[cnt > 0], rtol=1e-12, atol=1e-9) or np.isfinite(ii[cnt == 0]).any():
-        bad.append("intensity index is not amount / number of exceeding steps (NaN when none)")
+        bad.append(("accumulative_intensity", "intensity index is not amount / number of exceeding steps (NaN when none)"))
     return bad
 
 
@@ -498,9 +498,9 @@ def run_qcase(qc, res):
             m = ThresholdMetric.from_quantile(x, qarg, ty, threshold_scope=scope, threshold_locality=loc, time=time, name="q")
             inst = m.calculate_instances_of_threshold_exceedance(x, time=time)
     except Exception as e:  # noqa: BLE001
-        return None, None, [f"from_quantile(threshold_type={ty!r}) raised {type(e).__name__}: {str(e)[:120]}"]
+        return None, None, [("from_quantile_raises", f"from_quantile(threshold_type={ty!r}) raised {type(e).__name__}: {str(e)[:120]}")]
     if x.tobytes() != snap:
-        problems.append("from_quantile modified the dataset passed in")
+        problems.append(("dataset_unchanged", "from_quantile modified the dataset passed in"))
     # thresholds as the driver prints them
     code_of = (lambda k: SEASON_CODE[k]) if scope == "season" else (lambda k: int(k))
 
@@ -533,8 +533,8 @@ def run_qcase(qc, res):
                 if near and abs(got - want) <= 2:  # float (n-1)*q lands on the other side of an integer
                     ties += 1
                     continue
-                problems.append(f"quantile frequency: {got} instances in a tie-free sample of {n} for q={float(qc['q0'])}"
-                                + (f",{float(qc['q1'])}" if two else "") + f" ({ty}, group {g}, cell {cell}); the definition gives {want}")
+                problems.append(("quantile_count", f"quantile frequency: {got} instances in a tie-free sample of {n} for q={float(qc['q0'])}"
+                                + (f",{float(qc['q1'])}" if two else "") + f" ({ty}, group {g}, cell {cell}); the definition gives {want}"))
     res.extra["ties_accepted"] = res.extra.get("ties_accepted", 0) + ties
     grp = "none" if scope == "overall" else C.ilist(qc["codes"])
     line = (f"fromq {ty} {0 if scope == 'overall' else 1} {'g' if loc == 'global' else 'l'} {qc['T']} {qc['I']} {qc['J']} "
@@ -546,8 +546,10 @@ def describe_q(qc):
     d = {k: qc[k] for k in ("I", "J", "T", "ty", "loc", "scope", "tkind", "order")}
     d["q"] = [str(qc["q0"]), str(qc["q1"])]
     d["time_first"] = str(qc["time"][0])
+    d["kind"] = "from_quantile"
     if qc["T"] * qc["I"] * qc["J"] <= 120:
         d["data"] = C.rlist(qc["vals"])
+        d["time"] = [str(t) for t in qc["time"]]
     return d
 
 
@@ -588,14 +590,15 @@ def run(tier, res, force_search=False):
         m = make_metric(case)
         out, probs = run_real(case, m)
         desc = describe(case)
-        for p in probs:
-            problems_all.append((p, {"what": "dataset_unchanged", **desc}))
+        size = case["T"] * case["I"] * case["J"]
+        for kind, p in probs:
+            problems_all.append((kind, p, desc, size))
         outcome = "error" if case["expect_error"] else "ok"
         nyears = len(set(years_of(case["time"])))
         if case["expect_error"] is None:
             bad = oracle(case, out)
-            for b in bad:
-                problems_all.append((b, {"what": b.split(":")[0].split(" ")[0], **desc}))
+            for kind, b in bad:
+                problems_all.append((kind, b, desc, size))
             inst = out["inst"]
             nontrivial = isinstance(inst, np.ndarray) and 0 < int(inst.sum()) < inst.size
         else:
@@ -604,8 +607,8 @@ def run(tier, res, force_search=False):
                 if name in ("alias", "labels", "nlabels"):
                     continue
                 if r != "error ValueError":
-                    problems_all.append((f"{name}: expected ValueError ({case['expect_error']}), got {r if isinstance(r, str) else 'a result'}",
-                                         {"what": "missing-time-group", **desc}))
+                    problems_all.append(("instances_error", f"{name}: expected ValueError ({case['expect_error']}), got {r if isinstance(r, str) else 'a result'}",
+                                         desc, size))
         res.count((case["ty"], case["loc"], case["scope"], case["I"], case["J"], case["tkind"], nyears, case["style"], outcome),
                   nontrivial, sample={**describe(case, with_data=False), "instances": int(out["inst"].sum()) if isinstance(out["inst"], np.ndarray) else out["inst"]})
         lines.append(driver_line(case, out))
@@ -615,8 +618,8 @@ def run(tier, res, force_search=False):
     for k in range(n_q):
         qc = gen_qcase(rng, tier)
         line, exp, probs = run_qcase(qc, res)
-        for p in probs:
-            problems_all.append((p, {"what": "from_quantile", **describe_q(qc)}))
+        for kind, p in probs:
+            problems_all.append((kind, p, describe_q(qc), qc["T"] * qc["I"] * qc["J"]))
         res.count(("fromq", qc["ty"], qc["loc"], qc["scope"], qc["I"], qc["J"], qc["dyadic"]), True)
         if line is not None:
             lines.append(line)
@@ -638,13 +641,15 @@ def run(tier, res, force_search=False):
             lines.append("rle " + s)
             expect.append(("rle", {"bits": s}, r))
             if r != "-" and not r.startswith("error") and sum(int(v) for v in r.split(",")) != sum(bits):
-                problems_all.append((f"spell lengths of {s} sum to {r}, number of True {sum(bits)}", {"what": "spell", "bits": s}))
+                problems_all.append(("spell_lengths_conserve", f"spell lengths of {s} sum to {r}, number of True {sum(bits)}", {"bits": s}, n))
         res.count(("spell", n, p), n > 1)
     for k in range(20):
         ys = [rng.randint(1990, 1990 + rng.randint(0, 4)) for _ in range(rng.randint(1, 30))]
         lines.append("unique " + C.ilist(ys))
         expect.append(("unique", {"ys": ys}, C.ilist(np.unique(np.array(ys)))))
 
+    res.extra["driver_lines"] = {op: sum(1 for e in expect if e[0] == op) for op in ("all", "fromq", "spell", "rle", "unique")}
+    res.extra["expected_error_cases"] = sum(1 for e in expect if e[0] == "all" and e[1]["expect_error"])
     mismatches = []
     try:
         got = C.run_driver("DrvMetrics", lines)
@@ -671,23 +676,25 @@ def run(tier, res, force_search=False):
         for k in range(2 * n_all):
             case = gen_case(rng, tier)
             out, probs = run_real(case, make_metric(case))
-            for p in probs:
-                problems_all.append((p, {"what": "dataset_unchanged", **describe(case)}))
+            size = case["T"] * case["I"] * case["J"]
+            for kind, p in probs:
+                problems_all.append((kind, p, describe(case), size))
             if case["expect_error"] is None:
-                for b in oracle(case, out):
-                    problems_all.append((b, {"what": b.split(":")[0].split(" ")[0], **describe(case)}))
+                for kind, b in oracle(case, out):
+                    problems_all.append((kind, b, describe(case), size))
             if len(problems_all) > 20:
                 break
 
     # ---- verdict
+    # one violation per violated clause, reported on the smallest failing input found
     seen = set()
-    for p, case in problems_all:
-        key = (case.get("what"), p.split(":")[0][:50])
-        if key in seen:
+    res.extra["oracle_hits"] = len(problems_all)
+    for kind, p, case, size in sorted(problems_all, key=lambda e: e[3]):
+        if kind in seen:
             continue
-        seen.add(key)
-        res.violations.append((f"{case.get('what')}: {p}", {"property": PROP, "failing_input": case, "problem": p,
-                                                             "signature": {"what": case.get("what")}}))
+        seen.add(kind)
+        res.violations.append((f"{kind}: {p}", {"property": PROP, "failing_input": case, "problem": p, "clause": kind,
+                                                "signature": {"what": kind}}))
     if res.tie_broken and not problems_all:
         res.violations.append(("proof obligation / correspondence no longer checks: " + "; ".join(res.tie_broken)[:600],
                                {"property": PROP, "failing_input": None, "broken": res.tie_broken, "mismatches": mismatches[:5]}))
@@ -698,6 +705,20 @@ def replay(data):
     """re-run a recorded failing input (small cases carry their data) against the real code"""
     fi = data.get("failing_input")
     print(data.get("problem", ""))
+    if fi and fi.get("kind") == "from_quantile" and "data" in fi:
+        vals = C.parse_list(fi["data"], Fraction)
+        time = np.array([datetime.date.fromisoformat(t) for t in fi["time"]], dtype=object)
+        keys_real, codes = groups_of(time, fi["scope"])
+        q0, q1 = Fraction(fi["q"][0]), Fraction(fi["q"][1])
+        qc = dict(I=fi["I"], J=fi["J"], T=fi["T"], time=time, vals=vals, ty=fi["ty"], loc=fi["loc"], scope=fi["scope"], q0=q0, q1=q1,
+                  x=np.array([float(v) for v in vals]).reshape(fi["T"], fi["I"], fi["J"]), keys_real=keys_real, codes=codes,
+                  dyadic=q0.denominator <= 64 and q1.denominator <= 64, tkind=fi["tkind"], order=fi["order"])
+        _, _, probs = run_qcase(qc, C.Result(PROP, "replay"))
+        for _, b in probs:
+            print("  still failing:", b)
+        if not probs:
+            print("  the recorded input no longer fails")
+        return 1 if probs else 0
     if not fi or "data" not in fi or "time" not in fi or "threshold_value" not in fi:
         print("replay: the recorded case carries no explicit data (large case); re-run ./check C19 with the recorded seed")
         return 2
@@ -729,9 +750,9 @@ def replay(data):
                 code_of=(lambda k: SEASON_CODE[k]) if scope == "season" else (lambda k: int(k)), time_none=fi["time_none"],
                 expect_error=fi["expect_error"], minlen=fi["minlen"], tkind=fi["tkind"], order=fi["order"], style=fi["style"])
     out, probs = run_real(case, make_metric(case))
-    bad = list(probs)
+    bad = [p for _, p in probs]
     if case["expect_error"] is None:
-        bad += oracle(case, out)
+        bad += [b for _, b in oracle(case, out)]
     else:
         bad += [f"{n}: {r if isinstance(r, str) else 'a result'}" for n, r in out.items()
                 if n not in ("alias", "labels", "nlabels") and r != "error ValueError"]
